@@ -24,7 +24,8 @@ ASSUMPTIONS = [
     "an expression may advertise MORE modes than the textbook rule when a simplification collapsed it to a "
     "single leaf operator; every advertised mode must then still act as the matrix expression",
     "inverse-mode comparisons are skipped when the model matrix has condition number > 1e4 (documented: "
-    "user's responsibility)",
+    "user's responsibility), or when its smallest singular value is below 1e-8 of the largest intermediate "
+    "magnitude of the expression (pure cancellation round-off, e.g. S - (S^-1)^-1)",
 ]
 
 ALL = 15
@@ -43,8 +44,12 @@ def flipcap(cap, trafo):
 
 
 class Model:
-    def __init__(self, M, cap, is_null=False, kappa=1.0, capmax=None):
+    def __init__(self, M, cap, is_null=False, kappa=1.0, capmax=None, mag=None):
         self.M = np.asarray(M, dtype=np.complex128)
+        # largest magnitude of any intermediate matrix entry below this node: a result that is tiny compared with
+        # it is cancellation round-off, and its inverse is meaningless in floating point
+        own = float(np.max(np.abs(self.M))) if self.M.size else 0.0
+        self.mag = max(own, mag or 0.0)
         self.cap = cap          # textbook rule
         # upper bound: a sum that the library collapsed into one diagonal-like operator keeps that
         # operator's modes, and this propagates upwards
@@ -212,7 +217,7 @@ def build(u, node):
         op = o1 + o2 if k == "add" else o1 - o2
         M = m1.M + m2.M if k == "add" else m1.M - m2.M
         return op, Model(M, 3 & m1.cap & m2.cap, kappa=max(m1.kappa, m2.kappa),
-                         capmax=m1.capmax & m2.capmax), t1
+                         capmax=m1.capmax & m2.capmax, mag=max(m1.mag, m2.mag)), t1
     if k == "chain":
         o1, m1, t1 = build(u, node[1])
         o2, m2, t2 = build(u, node[2])
@@ -221,11 +226,11 @@ def build(u, node):
     if k == "scale":
         o, m, t = build(u, node[2])
         c = nx.num(node[1])
-        res = Model(c * m.M, m.cap, is_null=m.is_null, kappa=m.kappa, capmax=m.capmax)
+        res = Model(c * m.M, m.cap, is_null=m.is_null, kappa=m.kappa, capmax=m.capmax, mag=abs(c) * m.mag)
         return o.scale(c), res, t
     if k == "neg":
         o, m, t = build(u, node[1])
-        return -o, Model(-m.M, m.cap, is_null=m.is_null, kappa=m.kappa, capmax=m.capmax), t
+        return -o, Model(-m.M, m.cap, is_null=m.is_null, kappa=m.kappa, capmax=m.capmax, mag=m.mag), t
     if k == "adjoint":
         o, m, t = build(u, node[1])
         return o.adjoint, _flip(m, 1), (t[1], t[0])
@@ -240,7 +245,8 @@ def _chain(m1, m2):
     if m1.is_null or m2.is_null:
         # documented simplification: a chain containing a NullOperator is a NullOperator
         return Model(np.zeros((m1.M.shape[0], m2.M.shape[1])), 3, is_null=True)
-    return Model(m1.M @ m2.M, m1.cap & m2.cap, kappa=m1.kappa * m2.kappa, capmax=m1.capmax & m2.capmax)
+    return Model(m1.M @ m2.M, m1.cap & m2.cap, kappa=m1.kappa * m2.kappa, capmax=m1.capmax & m2.capmax,
+                 mag=max(m1.mag * float(np.max(np.abs(m2.M), initial=0.0)), float(np.max(np.abs(m1.M), initial=0.0)) * m2.mag))
 
 
 def _flip(m, trafo):
@@ -249,7 +255,11 @@ def _flip(m, trafo):
         M, kap = _inv(m)
     if trafo & 1:
         M = M.conj().T
-    return Model(M, flipcap(m.cap, trafo), kappa=kap, capmax=flipcap(m.capmax, trafo))
+    mag = m.mag
+    if trafo & 2:
+        # perturbations of relative size mag/|M| in M are amplified by |M^-1|
+        mag = float(np.max(np.abs(M))) * max(1.0, m.mag / max(float(np.max(np.abs(m.M))), 1e-300))
+    return Model(M, flipcap(m.cap, trafo), kappa=kap, capmax=flipcap(m.capmax, trafo), mag=mag)
 
 
 DIAGLIKE = ("scal", "diag", "pdiag", "block")
@@ -333,6 +343,10 @@ def check(rec):
     v = nx.arr(rec["vec"])[:u.n].astype(np.complex128)
     M = mod.M
     invable = M.shape[0] == M.shape[1] and np.isfinite(np.linalg.cond(M)) and np.linalg.cond(M) <= 1e4
+    if invable and M.size and float(np.linalg.svd(M, compute_uv=False)[-1]) < 1e-8 * mod.mag:
+        # the result is cancellation round-off of much larger intermediates (e.g. S - (S^-1)^-1): numerically
+        # singular, inverse undefined in floating point (documented: the user's responsibility)
+        invable = False
     classes = []
     for mode in nx.MODES:
         if not cap & mode:
